@@ -448,7 +448,7 @@ def blame(rec, pass_name: str, verdict: str, big: bool, max_size: int | None = N
             except Exception:  # noqa: BLE001 - a window that is not a valid program cannot be blamed
                 continue
             if v == verdict:
-                return _labels(ops[start:start + size])
+                return _labels(window(rec, start, size)[4])  # patterns as the window shows them (earlier results = arg)
     return _labels(ops) if max_size is None else None
 
 
